@@ -2,4 +2,5 @@ import Proofs.Layout
 import Proofs.LayoutHeadings
 import Proofs.LayoutRoles
 import Proofs.Paginate
+import Proofs.Validate
 import Proofs.Widths
